@@ -17,13 +17,17 @@ import random
 import front
 import genrun
 
-LEAN_MODULE = "PydjinniModel.Props.C11"
+LEAN_MODULE = "PydjinniModel.Props.C11Closed"
 THEOREMS = [
     "Pydjinni.Front.lexicalLookup_perm",
     "Pydjinni.Front.declRules_congr",
     "Pydjinni.Front.violations_perm",
     "Pydjinni.Front.progRegistry_perm",
     "Pydjinni.Front.accepted_perm",
+    "Pydjinni.Front.declRules_congr_on",
+    "Pydjinni.Front.violationsOrdered_eq_violations_of_closed",
+    "Pydjinni.Front.split_invariance",
+    "Pydjinni.Front.split_invariance_accepted",
 ]
 LEVEL = "proof"
 
@@ -137,6 +141,18 @@ def run(ctx):
             index.append((pi, vname))
     res2 = front.run_many(ctx.tmp, todo2)
     answers = ctx.driver.batch([req for _, req in res2])
+    # hypothesis of split_invariance on the very inputs: every variant (files in finish order) is dependency-closed
+    closed = ctx.driver.batch([{**req, "op": "c11.closed"} for _, req in res2])
+    for (pi, vname), cl in zip(index, closed):
+        if "error" in cl:
+            raise RuntimeError(f"driver error {cl}")
+        if cl.get("syntax"):
+            continue
+        ctx.stat("variant_closed" if cl["closed"] else "variant_not_closed:" + vname)
+        if cl["closed"] and not cl["same"]:
+            ctx.obligation(f"closed-implies-ordered-eq-whole[{pi}:{vname}]", False, "evaluation", "an evaluated instance contradicts violationsOrdered_eq_violations_of_closed")
+    ctx.obligation("closed-implies-ordered-eq-whole (evaluated on every variant)", True, "evaluation",
+                   f"{ctx.stats.get('variant_closed', 0)} closed variants")
     breaks = []
     per_prog = {}
     for (pi, vname), (impl, req), m in zip(index, res2, answers):
